@@ -44,3 +44,19 @@ Definition eff a h f e b := {| f_sc := a; f_sh := h; f_fi := f; f_eh := e; f_bt 
 Definition dd x e b := {| d_exec := x; d_eh := e; d_bt := b |}.
 Definition rd x e b k m := {| r_exec := x; r_eh := e; r_bt := b; r_backend := k; r_matchers_ok := m |}.
 Definition cs p d r o := {| c_proxy := p; c_def := d; c_rule := r; c_obs := o |}.
+
+(** second stream: the same definitions as YAML text through the real rule-set
+    parser, rule-set processor and repository.  The parser's validation rejects a
+    rule without any `execute` step, or with an empty method name, before the
+    factory sees it. *)
+Definition load_ruleset (impl_fixed : bool) (c : case) : load_res :=
+  match load impl_fixed (c_proxy c) (c_def c) (c_rule c) with
+  | Loaded r => if is_nil (r_exec (c_rule c)) || negb (r_matchers_ok (c_rule c))
+                then Loaded Rejected else Loaded r
+  | other => other
+  end.
+
+Definition check_rs (impl_fixed : bool) (c : case) : verdict :=
+  {| v_corr := load_res_eqb (load_ruleset impl_fixed c) (c_obs c);
+     v_prop := load_res_eqb (load_ruleset true c) (c_obs c);
+     v_guards := guards [(1%Z, g_F1 c && negb impl_fixed)] |}.
